@@ -18,6 +18,8 @@ mod sock;
 mod c08;
 mod c06;
 mod c03;
+mod der;
+mod c14;
 
 use std::io::{BufRead, Write};
 
@@ -68,6 +70,7 @@ fn lookup(id: &str) -> Option<(&'static str, Gen, Exec)> {
         "C08" => Some(("C08", c08::generate, c08::exec)),
         "C06" => Some(("C06", c06::generate, c06::exec)),
         "C03" => Some(("C03", c03::generate, c03::exec)),
+        "C14" => Some(("C14", c14::generate, c14::exec)),
         _ => None,
     }
 }
